@@ -94,7 +94,7 @@ impl Sub for ScoreSub {
         "score"
     }
     fn rule(&self) -> &'static str {
-        "alphabet x layout x boundary-biased length x sequence mode x matrix regime (library / finite / -inf / small-int) x width 1..70 (and, 1 case in 13, width 100..400 on a sequence with only 0..40 valid positions) x extra wrap x row sub-range x reused buffer; every backend implemented for the layout (generic, sse2, avx2, dispatch forced to each arm) and every read-out path compared with a linear-sequence reference; non-trivial = L >= M and R >= 2 (distinct by full case)"
+        "alphabet x layout x boundary-biased length x sequence mode x matrix regime (library / finite / -inf / small-int) x width 1..70 (and, 1 case in 13, width 100..400 on a sequence with only 0..40 valid positions) x extra wrap x row sub-range x reused buffer; every backend implemented for the layout (generic, sse2, avx2, dispatch forced to each arm) and every read-out path compared with a linear-sequence reference; sweep = every length 0..70 (thorough ..1100) x 4 widths x both alphabets x 16/32 columns, plus sequences of more than 65536 striped rows; non-trivial = L >= M and R >= 2 (distinct by full case)"
     }
     fn cases(&self, tier: Tier) -> u64 {
         tier.pick(100_000, 3_000_000)
@@ -127,6 +127,26 @@ impl Sub for ScoreSub {
                     }
                 }
             }
+        }
+        // very long sequences: more than 65536 striped rows (a 16-bit row counter) for 32 and 16 columns
+        let longs: &[(Abc, Cols, usize)] = if tier == Tier::Thorough {
+            &[(Abc::Dna, Cols::U32, 32 * 65536 + 37), (Abc::Protein, Cols::U32, 32 * 65536 + 5), (Abc::Dna, Cols::U16, 16 * 65536 + 21), (Abc::Dna, Cols::U32, 32 * 65537)]
+        } else {
+            &[(Abc::Dna, Cols::U32, 32 * 65536 + 37), (Abc::Dna, Cols::U16, 16 * 65536 + 21)]
+        };
+        for &(abc, cols, l) in longs {
+            let k = abc.k();
+            let rows = (0..3usize).map(|i| (0..k).map(|j| Fl((((i * 7 + j * 3) % 11) as f32) - 5.0 + if j == k - 1 { -3.0 } else { 0.0 })).collect()).collect();
+            out.push(Case {
+                abc,
+                cols,
+                seq: SeqSpec::Seeded { len: l, seed: l as u64, wild_pct: 1 },
+                mat: MatSpec { rows, bg: BgSpec::Uniform, regime: "small-int".into() },
+                extra_wrap: 0,
+                sub: (0, 16),
+                prev_rows: 0,
+                first_width: 0,
+            });
         }
         out
     }
@@ -334,6 +354,7 @@ fn classify<C: PositiveLength>(case: &Case, l: usize, m: usize, rows: usize, sub
     info.class_if(l >= m && l - m + 1 < rows && rows > 4, "fewer-valid-positions-than-rows(R>4)");
     info.class_if(l >= 1024, "L>=1024");
     info.class_if(l >= 8192, "L>=8192");
+    info.class_if(rows > 65536, "more-than-65536-rows");
     info.class_if(case.abc == Abc::Protein, "protein");
     info.class_if(case.abc == Abc::Dna, "dna");
     info.class_if(!sub.is_empty() && sub.len() < rows, "proper-subrange");
